@@ -245,6 +245,12 @@ def run_case(case, obs):
                 ranked[succ] = vals
                 if kind == "eq" and mode == "exhaustive":
                     ranked[succ] = meta["lo"] + vals  # both sides of the target
+            if mode == "sampled" and fl != "objective2" and ns and rng.random() < 0.25:
+                # an infinite value is a value: the infinitely bad realization is the worst one, the infinitely good one the best
+                # (failed realizations never take the place of either)
+                ranked = ranked.copy()
+                ranked[succ[int(rng.integers(ns))]] = rng.choice([np.inf, -np.inf])
+                obs.count("cvar.with_an_infinite_value")
             _one(obs, flt, fl, kind, meta, ranked, failed, float(p), rng)
     obs.sample({"n": n, "failed": case["failed"], "flavour": fl, "kind": kind, "percentiles": len(grid)})
 
